@@ -15,10 +15,13 @@ import (
 	"errors"
 	"fmt"
 	"math/rand/v2"
+	"net/http"
+	"net/http/httptest"
 	"net/netip"
 	"path/filepath"
 	"strings"
 	"sync"
+	"sync/atomic"
 	"testing"
 
 	"github.com/tailscale/setec/audit"
@@ -59,7 +62,7 @@ var endpoints = []ops.Kind{ops.Get, ops.Put, ops.List, ops.Info, ops.Act, ops.De
 var methods = []string{"POST", "GET", "PUT", "DELETE", "HEAD", "OPTIONS", "PATCH"}
 var ctypes = []string{"application/json", "application/json; charset=utf-8", "text/plain", "", "application/x-www-form-urlencoded", "Application/JSON"}
 var browserHdr = []string{"setec", "", "other", "Setec", "setec "}
-var whoKinds = []string{"user", "tagged", "anonymous", "error", "plain-cap", "https-cap", "both-caps", "malformed-grant", "wrong-type-grant", "empty-grants", "no-caps", "bad-remote-addr", "restricted"}
+var whoKinds = []string{"user", "tagged", "anonymous", "error", "plain-cap", "https-cap", "both-caps", "malformed-grant", "wrong-type-grant", "empty-grants", "no-caps", "bad-remote-addr", "restricted", "https-malformed", "plain-empty-https-malformed", "https-wrong-type", "plain-ok-https-malformed"}
 var bodyKinds = []string{"valid", "null", "empty-object", "truncated", "wrong-types", "extra-fields", "huge-version", "trailing-garbage", "empty", "whitespace", "not-json", "array", "lowercase-fields"}
 
 type req struct {
@@ -128,6 +131,24 @@ func whoAnswer(kind string) (resp *apitype.WhoIsResponse, err error, rules []ref
 		w := base()
 		w.CapMap[server.ACLCap] = []tailcfg.RawMessage{`"everything"`}
 		return w, nil, nil, false
+	case "https-malformed": // nothing under the plain name, an unparsable grant under the legacy name
+		w := base()
+		w.CapMap[httpsCap] = []tailcfg.RawMessage{`{"action":"get","secret":["*"]}`}
+		return w, nil, nil, false
+	case "plain-empty-https-malformed":
+		w := base()
+		w.CapMap[server.ACLCap] = []tailcfg.RawMessage{}
+		w.CapMap[httpsCap] = append(raw(fullRules), tailcfg.RawMessage(`[1,2]`))
+		return w, nil, nil, false
+	case "https-wrong-type":
+		w := base()
+		w.CapMap[httpsCap] = []tailcfg.RawMessage{`17`}
+		return w, nil, nil, false
+	case "plain-ok-https-malformed": // the plain name yields rules, so the legacy name is never looked at
+		w := base()
+		w.CapMap[server.ACLCap] = raw(restrictedRules)
+		w.CapMap[httpsCap] = []tailcfg.RawMessage{`{"action":`}
+		return w, nil, restrictedRules, true
 	case "empty-grants":
 		w := base()
 		w.CapMap[server.ACLCap] = []tailcfg.RawMessage{}
@@ -210,8 +231,11 @@ func TestC08(t *testing.T) {
 	for stIdx := 0; stIdx < nStates; stIdx++ {
 		runState(t, r, dir, stIdx)
 	}
-	r.Require("gate_violations", "accepted_requests", "accepted_200", "accepted_304", "accepted_403", "accepted_404", "accepted_other_error", "unidentified_callers", "client_mapping_checks", "audit_principals_checked", "grey_bodies")
-	r.Rule("requests = product of 7 endpoints x 7 methods x 6 content types x 5 browser-header values x 13 WhoIs scripts x 13 body kinds, enumerated completely for /api/get and /api/put on every database state and sampled (seeded) for the other endpoints, all from ONE source address per state so that identity must be re-derived per request. Distinct = (endpoint, first violated gate or outcome class, status)")
+	if r.Only < 0 {
+		concurrentReplies(t, r, dir)
+	}
+	r.Require("gate_violations", "accepted_requests", "accepted_200", "accepted_304", "accepted_403", "accepted_404", "accepted_other_error", "unidentified_callers", "client_mapping_checks", "audit_principals_checked", "grey_bodies", "concurrent_replies_checked")
+	r.Rule("requests = product of 7 endpoints x 7 methods x 6 content types x 5 browser-header values x 17 WhoIs scripts x 13 body kinds, enumerated completely for /api/get and /api/put on every database state and sampled (seeded) for the other endpoints, all from ONE source address per state so that identity must be re-derived per request. Distinct = (endpoint, first violated gate or outcome class, status)")
 }
 
 func runState(t *testing.T, r *evid.Run, dir string, stIdx int) {
@@ -514,4 +538,97 @@ func runState(t *testing.T, r *evid.Run, dir string, stIdx int) {
 			}
 		}
 	}
+}
+
+// concurrentReplies: many clients over real loopback sockets, each allowed to read only its own
+// secret, all at once: every reply must carry the caller's own secret and nobody else's.
+func concurrentReplies(t *testing.T, r *evid.Run, dir string) {
+	d, err := realdb.Open(filepath.Join(dir, "conc.db"), realdb.DummyKey("c08c"))
+	if err != nil {
+		t.Fatal(err)
+	}
+	const N = 32
+	su := realdb.Super()
+	rng := r.Rand(99)
+	vals := make([][]byte, N)
+	for i := range vals {
+		vals[i] = append(marker(rng), bytes.Repeat([]byte{byte('A' + i%26)}, 6000+rng.IntN(64000))...)
+		d.Put(su, fmt.Sprintf("own/%d", i), vals[i])
+	}
+	srv, err := httpdrv.New(d)
+	if err != nil {
+		t.Fatal(err)
+	}
+	// identity by header-free means: every client gets its own listener-side address only after connecting,
+	// so permissions are keyed on the secret asked for: each peer address is registered on first sight
+	var mu sync.Mutex
+	next := 0
+	assigned := map[string]int{}
+	srv.Override = func(ctx context.Context, addr string) (*apitype.WhoIsResponse, error) {
+		mu.Lock()
+		i, ok := assigned[addr]
+		if !ok {
+			i = next % N
+			next++
+			assigned[addr] = i
+		}
+		mu.Unlock()
+		return httpdrv.WhoResponse(httpdrv.Who{Login: fmt.Sprintf("peer%d@verif", i), Node: fmt.Sprintf("peer%d", i),
+			Rules: []refmodel.Rule{{Actions: []string{"get"}, Patterns: []string{fmt.Sprintf("own/%d", i)}}}}, server.ACLCap), nil
+	}
+	hs := httptest.NewServer(srv.Mux)
+	defer hs.Close()
+	var wg sync.WaitGroup
+	var bad atomic.Int32
+	rounds := r.N(150, 1500)
+	for c := 0; c < N; c++ {
+		wg.Add(1)
+		go func(c int) {
+			defer wg.Done()
+			tr := &http.Transport{MaxIdleConnsPerHost: 1}
+			defer tr.CloseIdleConnections()
+			cl := setec.Client{Server: hs.URL, DoHTTP: (&http.Client{Transport: tr}).Do}
+			// find out which secret this connection's address was given: exactly one own/<i> is readable
+			mine := -1
+			for i := 0; i < N && mine < 0; i++ {
+				if _, err := cl.Get(context.Background(), fmt.Sprintf("own/%d", i)); err == nil {
+					mine = i
+				}
+			}
+			if mine < 0 {
+				return
+			}
+			for k := 0; k < rounds; k++ {
+				sv, err := cl.Get(context.Background(), fmt.Sprintf("own/%d", mine))
+				r.Count("concurrent_replies_checked", 1)
+				if errors.Is(err, api.ErrAccessDenied) {
+					return // the connection (and with it the source address) was replaced
+				}
+				if err != nil {
+					if bad.Add(1) <= 2 {
+						r.Violation("reply-not-the-json-result", -1, fmt.Sprintf("under concurrent load peer %d's get of its own secret failed: %v", mine, err), nil)
+					}
+					continue
+				}
+				if !bytes.Equal(sv.Value, vals[mine]) && bad.Add(1) <= 2 {
+					whose := "nobody's"
+					for j := range vals {
+						if bytes.Equal(sv.Value, vals[j]) {
+							whose = fmt.Sprintf("peer %d's", j)
+						}
+					}
+					r.Violation("reply-carries-foreign-secret", -1, fmt.Sprintf("under concurrent load the reply to peer %d's get of its own secret carried %s value (%d bytes)", mine, whose, len(sv.Value)), nil)
+				}
+				// and the others stay forbidden
+				if k%16 == 0 {
+					if sv, err := cl.Get(context.Background(), fmt.Sprintf("own/%d", (mine+1)%N)); err == nil && bad.Add(1) <= 2 {
+						r.Violation("reply-carries-foreign-secret", -1, fmt.Sprintf("peer %d could read peer %d's secret (%d bytes)", mine, (mine+1)%N, len(sv.Value)), nil)
+					}
+				}
+			}
+		}(c)
+	}
+	wg.Wait()
+	r.Eval(1)
+	r.Distinct("concurrent replies over loopback")
 }
